@@ -9,9 +9,14 @@ UNITS = [dict(
     budget={'quick': 280, 'thorough': 2600},
     validate=['simplify', 'relative'],
 )]
+UNITS.append(dict(
+    name='dirs', harness='harness/c19_fs.cpp', sources=SRC + ['repo:src/Directory.cpp', 'repo:src/Error.cpp', 'repo:src/Mutex.cpp'], native=False,
+    defines={'quick': {}, 'thorough': {}}, entries=['create', 'unlink_tree'],
+    opts={'all': {'unwind': 64}}, split={'quick': 8, 'thorough': 16}, budget={'quick': 280, 'thorough': 2600}, validate=[],
+))
 BOUNDS = {
-    'quick': 'all path strings of <= 4 characters over {/, \\\\, ., a, b} for simplifyPath (idempotent + same denotation) and the decomposition functions; all pairs (from, to) of <= 3 characters each, both relative or both absolute, from not climbing above its start, for getRelativePath',
+    'quick': 'all path strings of <= 4 characters over {/, \\\\, ., a, b} for simplifyPath (idempotent + same denotation) and the decomposition functions; all pairs (from, to) of <= 3 characters each, both relative or both absolute, from not climbing above its start, for getRelativePath; Directory::create("a/b/c" | "a" | "a/b/") from 6 pre-existing layouts (incl. a file or a symbolic link in the way) with any one mkdir refused; Directory::unlink on a tree with optional file, sub-directory, symbolic links to an outside directory/file, recursive and not, with any one unlink refused',
     'thorough': 'paths <= 6 characters, pairs <= 4 characters each',
 }
-OUTSIDE = 'longer paths, drive-letter prefixes, File content operations and child-visible file system behaviour (kernel; not applicable to this technique, see DESIGN section 4)'
+OUTSIDE = 'longer paths, drive-letter prefixes, File content operations (write/append/seek/readAll/copy/rename: kernel behaviour, not claimed), real file systems (the directory tree is a POSIX model of mkdir/rmdir/unlink/stat/lstat/opendir/readdir)'
 ASSUMPTIONS = ['clang++-14 -O1 IR of src/File.cpp (path functions only are executed), src/String.cpp, src/Memory.cpp']
